@@ -111,6 +111,9 @@ def writer_steps(fn):
                         if isinstance(a, ast.If) and any(isinstance(x, ast.Call) and isinstance(x.func, ast.Attribute) and x.func.attr == "exists"
                                                          for x in ast.walk(a.test)):
                             eo = True  # guarded by an existence test
+                    from .. import frontend as _F
+                    if _F.tolerates_existing(c):
+                        eo = True  # 'already exists' is caught and passed over
                     steps.append(("mkdir", target_of(fn, recv), eo, c))
                 elif last == "makedirs":
                     eo = any(k.arg == "exist_ok" and isinstance(k.value, ast.Constant) and k.value.value is True for k in c.keywords)
@@ -785,6 +788,8 @@ VARIANTS = [
     import os
     os.replace(tmp_path, service_dir_path.joinpath("service_meta"))
 """)]),
+    V("benign-mkdir-exists-caught", "silent", None, [(F.SRV_FM, "create_sid_folder",
+      "    _PROGRAM_PATH.joinpath(sid).mkdir(exist_ok=True)", "    try:\n        _PROGRAM_PATH.joinpath(sid).mkdir()\n    except FileExistsError:\n        pass")]),
     V("benign-mkdir-guarded-by-exists", "silent", None, [(F.SRV_FM, "create_sid_folder",
       "    _PROGRAM_PATH.joinpath(sid).mkdir(exist_ok=True)", "    if not _PROGRAM_PATH.joinpath(sid).exists():\n        _PROGRAM_PATH.joinpath(sid).mkdir()")]),
 ]
